@@ -31,7 +31,7 @@ for sid, m in sorted(metas.items(), key=lambda kv: (rnd(kv[0]), kv[0])):
 hdr = []
 hdr.append('Seeded faults kept under `/verif/seeded/<id>/` (`patch.diff`, the sub-agent\'s `demo_test.go` + `demo_path.txt` + `README.md`, `meta.json`). Each was produced by a fresh sub-agent that saw only the property text and a scratch worktree (from round 2 on the agents were also told which ideas earlier rounds had used and which themes were exhausted, to force diversity), and was kept only after `tools_seed_verify.sh` confirmed in a scratch worktree that the demonstration passes on the unchanged tree and fails with the patch while `go build`, `go vet` and the 111-test suite still pass. "Caught by" is the first finding key printed by the named quick check in the last full matrix run (`tools_seeded_all.sh`: `git -C /repo apply`, `./check <ID> quick`, `git -C /repo apply -R`), i.e. with the checks as they are now.')
 hdr.append('')
-hdr.append('Totals: %d seeded faults + %d reverted fixes. Missed by the check as it stood when the fault arrived, then caught after strengthening: %s. No seeded fault remains undetected (a few are caught by a neighbouring property's check rather than by the one the agent was given - the 'caught by' column names the check); every strengthening was re-run on the unchanged tree before it was kept.' % (sum(v[0] for k,v in per_round.items() if k), per_round.get(0,[0,0])[0], '; '.join('round %d: %d of %d' % (k, v[1], v[0]) for k, v in sorted(per_round.items()) if k)))
+hdr.append('Totals: %d seeded faults + %d reverted fixes. Missed by the check as it stood when the fault arrived, then caught after strengthening: %s. No seeded fault remains undetected (a few are caught by a neighbouring property\'s check rather than by the one the agent was given - the "caught by" column names the check); every strengthening was re-run on the unchanged tree before it was kept.' % (sum(v[0] for k,v in per_round.items() if k), per_round.get(0,[0,0])[0], '; '.join('round %d: %d of %d' % (k, v[1], v[0]) for k, v in sorted(per_round.items()) if k)))
 hdr.append('')
 hdr.append('| seed | property | change | needs, in order to manifest | caught by (finding key) | history |')
 hdr.append('|---|---|---|---|---|---|')
